@@ -303,6 +303,8 @@ def run(ctx: common.Ctx):
                           {**{k: r.get(k) for k in ("dtype", "shape", "form", "params")}, "mode": mode, "kind": kind, "detail": detail})
     # sharing table
     sd = ["int64", "float32", "bool", "utf8", "nint64", "nbool", "nutf8", "int8"]
+    from .. import setitemtie
+    setitemtie.run(ctx, 150 if quick else 3000)
     sjobs = [(fn, d, m) for fn in list(PURE_CALLS) + list(NO_COPY) for d in sd for m in ("eager", "lazy")]
     rows = tables.pmap(sharing_row, sjobs, chunk=16, strict=True)
     table = []
